@@ -35,7 +35,7 @@ VALUES = {
 
 
 def world(subsets):
-    types = {"Inner": [F("x", 1, "sint64"), F("s", 2, "string")], "N": NEW}
+    types = {"Inner": [F("x", 1, "sint64"), F("s", 2, "string")], "NewT": NEW}
     for k, drop in enumerate(subsets):
         types["O%d" % k] = [f for f in NEW if f["name"] not in drop]
     schema = {"types": types, "enums": {"E": gen.ENUM_E}}
@@ -49,27 +49,27 @@ def evo_event(args):
     schema, val, k, drop = args
     if "bp" not in _W:
         _W["bp"] = dyn.make_bp(schema)
-        _W["ref"] = dyn.make_ref({"types": {"Inner": schema["types"]["Inner"], "N": schema["types"]["N"]}, "enums": schema["enums"]})
+        _W["ref"] = dyn.make_ref({"types": {"Inner": schema["types"]["Inner"], "NewT": schema["types"]["NewT"]}, "enums": schema["enums"]})
     C, R = _W["bp"], _W["ref"]
     oty = "O%d" % k
-    ev = {"op": "evo", "ty": "N", "oty": oty, "val": val, "res": "ok", "b": [], "b_old": [], "obs_old": gen.fresh(schema, oty), "obs_new": val,
-          "obs_ref": val, "stream": "ok", "case": {"ty": "N", "tag": "drop " + ",".join(sorted(drop))}}
+    ev = {"op": "evo", "ty": "NewT", "oty": oty, "val": val, "res": "ok", "b": [], "b_old": [], "obs_old": gen.fresh(schema, oty), "obs_new": val,
+          "obs_ref": val, "stream": "ok", "case": {"ty": "NewT", "tag": "drop " + ",".join(sorted(drop))}}
     try:
-        b = bytes(dyn.conc_bp(schema, C, "N", val))
+        b = bytes(dyn.conc_bp(schema, C, "NewT", val))
         ev["b"] = list(b)
         old = C[oty]().parse(b)
         ev["obs_old"] = dyn.obs_bp(schema, old, oty)
         b_old = bytes(old)
         ev["b_old"] = list(b_old)
-        ev["obs_new"] = dyn.obs_bp(schema, C["N"]().parse(b_old), "N")
-        m = R["N"]()
+        ev["obs_new"] = dyn.obs_bp(schema, C["NewT"]().parse(b_old), "NewT")
+        m = R["NewT"]()
         m.ParseFromString(b_old)
-        ev["obs_ref"] = dyn.obs_ref(schema, m, "N")
+        ev["obs_ref"] = dyn.obs_ref(schema, m, "NewT")
         # the same relay over a size-delimited stream: two copies, the older reader must read both and stop at the end
         import io
         import betterproto
         st = io.BytesIO()
-        nm = dyn.conc_bp(schema, C, "N", val)
+        nm = dyn.conc_bp(schema, C, "NewT", val)
         nm.dump(st, betterproto.SIZE_DELIMITED)
         nm.dump(st, betterproto.SIZE_DELIMITED)
         rs = io.BytesIO(st.getvalue())
@@ -116,7 +116,7 @@ def run(ctx):
     else:
         subs = [s for s in allsubs if len(s) <= 2] + rnd.sample([s for s in allsubs if len(s) > 2], 700)
     schema = world(subs)
-    base = gen.fresh(schema, "N")
+    base = gen.fresh(schema, "NewT")
     vals = []
     full = dict(base)
     for n in names:
